@@ -161,6 +161,17 @@ Proof.
   destruct (Nat.eqb (List.length xs) 2) eqn:E; [apply Nat.eqb_eq in E; contradiction | reflexivity].
 Qed.
 
+(* check_conf looks at the "input" key only (get_config_input): the other top-level keys do not
+   matter, and a configuration without "input" is refused (KeyError), whatever the file system *)
+Theorem C17_only_input_key_matters : forall fs d d',
+  lookup "input" d = lookup "input" d' ->
+  pandora_check_conf_input fs (JDict d) = pandora_check_conf_input fs (JDict d').
+Proof. intros fs d d' H. unfold pandora_check_conf_input, get_config_input. now rewrite H. Qed.
+
+Theorem C17_no_input_refused : forall fs d,
+  lookup "input" d = None -> pandora_check_conf_input fs (JDict d) = Raise EKey.
+Proof. intros fs d H. unfold pandora_check_conf_input, get_config_input. rewrite H. reflexivity. Qed.
+
 (* ===================================================================== refusal comes first *)
 
 (* main() runs its calls in order and stops at the first exception (model [started]); in the
@@ -250,5 +261,7 @@ Print Assumptions C17_check_input_iff_documented.
 Print Assumptions C17_input_completion.
 Print Assumptions C17_user_values_kept_refuted.
 Print Assumptions C17_interval_length_checked.
+Print Assumptions C17_only_input_key_matters.
+Print Assumptions C17_no_input_refused.
 Print Assumptions C17_refusal_before_matching.
 Print Assumptions C17_input_checked_first.
